@@ -88,7 +88,7 @@ Section ReadNoPanic.
   Proof. unfold refresh_line. q5_auto; try apply q5_update_hint; apply q5_refresh. Qed.
   Lemma q5_refresh_prompt_and_line p : quiet5 (refresh_prompt_and_line U cfg p).
   Proof. unfold refresh_prompt_and_line. q5_auto; try apply q5_update_hint; apply q5_refresh. Qed.
-  Lemma q5_beep : quiet5 beep. Proof. unfold beep. q5_auto. Qed.
+  Lemma q5_beep : quiet5 (beep cfg). Proof. unfold beep. q5_auto. Qed.
 
   (* ---------- the read-level invariant ---------- *)
 
